@@ -40,4 +40,26 @@ def estimate (exec : Exec) (lo cap : Nat) : Estimate :=
       | _ => .error
     else .gas h
 
+/-- the upper bound of the search, as `EstimateGas` determines it: the caller's gas if it is at least 21 000, else
+the block gas limit if there is one, else the gas cap of the request (`rawBound`); then capped by the request's gas cap -/
+def rawBound (argsGas : Option Nat) (maxGas : Int) (reqCap : Nat) : Nat :=
+  match argsGas with
+  | some g => if g ≥ 21000 then g else (if maxGas > 0 then maxGas.toNat else reqCap)
+  | none => if maxGas > 0 then maxGas.toNat else reqCap
+
+def searchBound (argsGas : Option Nat) (maxGas : Int) (reqCap : Nat) : Nat :=
+  if reqCap ≠ 0 ∧ rawBound argsGas maxGas reqCap > reqCap then reqCap else rawBound argsGas maxGas reqCap
+
+/-- `EstimateGas`: `gasCap` is the bound *after* the recap (`gasCap = hi` follows the recap in the source) -/
+def estimateGas (exec : Exec) (argsGas : Option Nat) (maxGas : Int) (reqCap : Nat) : Estimate :=
+  estimate exec 20999 (searchBound argsGas maxGas reqCap)
+
+/-- what a stale `gasCap` (remembered before the recap) does: the bound itself is returned without ever having run -/
+def estimateGasStale (exec : Exec) (argsGas : Option Nat) (maxGas : Int) (reqCap : Nat) : Estimate :=
+  let hi := searchBound argsGas maxGas reqCap
+  let stale := searchBound argsGas maxGas 0
+  match binSearch exec 20999 hi with
+  | none => .error
+  | some h => if h = stale then (match exec h with | some false => .gas h | _ => .error) else .gas h
+
 end Evermint.Query
